@@ -56,6 +56,8 @@ structure ArchDec where
   dir : Bytes := [dot]
   last : Option Elem := none
   skip : Nat := 0        -- payload bytes the caller did not read (`d.advance`)
+  nodes : Nat := 0       -- number of nodes returned so far
+  rootNotDir : Bool := false   -- the first node had no filename and was not a directory
   deriving Repr
 
 structure Pending where
@@ -76,6 +78,14 @@ def Pending.meta (p : Pending) : Meta :=
   | some (mode, uid, gid, mt) => ⟨uid, gid, mode, mt, p.xattrs⟩
   | none => ⟨0, 0, 0, 0, p.xattrs⟩
 
+/-- the check between the loop and the construction of the node: only the first node of an
+    archive (its root) may come without a filename, and nothing may follow a root that is not a
+    directory.  Returns the decoder with its counters updated, or `none` = `InvalidFormat`. -/
+def ArchDec.admit (a : ArchDec) (name : Bytes) (isDir : Bool) : Option ArchDec :=
+  if a.nodes > 0 && (name = [] || a.rootNotDir) then none
+  else some { a with nodes := a.nodes + 1,
+                     rootNotDir := if a.nodes = 0 && name = [] && !isDir then true else a.rootNotDir }
+
 /-- the `for` loop of `ArchiveDecoder.Next`; `none` result = end of archive -/
 def archLoop : Nat → ArchDec → Pending → Res (Option Node × ArchDec)
   | 0, _, _ => .err .other
@@ -86,12 +96,15 @@ def archLoop : Nat → ArchDec → Pending → Res (Option Node × ArchDec)
         let (e, s) ← decNext a.st
         pure (e, { a with st := s }))
     let finish (a : ArchDec) (p : Pending) : Res (Option Node × ArchDec) :=
-      match p.symlink, p.device with
-      | none, none =>
-        let d := joinPath a.dir p.name
-        pure (some (.dir d p.meta), { a with dir := d })
-      | _, some (ma, mi) => pure (some (.device (joinPath a.dir p.name) p.meta ma mi), a)
-      | some t, none => pure (some (.symlink (joinPath a.dir p.name) p.meta t), a)
+      match a.admit p.name (p.symlink.isNone && p.device.isNone) with
+      | none => .err .format
+      | some a =>
+        match p.symlink, p.device with
+        | none, none =>
+          let d := joinPath a.dir p.name
+          pure (some (.dir d p.meta), { a with dir := d })
+        | _, some (ma, mi) => pure (some (.device (joinPath a.dir p.name) p.meta ma mi), a)
+        | some t, none => pure (some (.symlink (joinPath a.dir p.name) p.meta t), a)
     match c with
     | none => if p.entry.isSome then .err .ueof else pure (none, a)
     | some (.entry _ _ mode _ uid gid mt) =>
@@ -102,9 +115,12 @@ def archLoop : Nat → ArchDec → Pending → Res (Option Node × ArchDec)
       archLoop fuel a p
     | some (.payload sz) =>
       if p.entry.isNone then .err .format
-      else do
-        let (data, s) ← takePayload (sz.toNat - 16) a.st
-        pure (some (.file (joinPath a.dir p.name) p.meta (sz - 16) data), { a with st := s })
+      else
+        match a.admit p.name false with
+        | none => .err .format
+        | some a => do
+          let (data, s) ← takePayload (sz.toNat - 16) a.st
+          pure (some (.file (joinPath a.dir p.name) p.meta (sz - 16) data), { a with st := s })
     | some (.xattr _ nv) =>
       match splitNul nv with
       | none => .err .format
